@@ -35,7 +35,18 @@ def run_case(ctx, mr, case):
         ctx.diff('oracle', s, case, expected, observed, f'{mode} wrapper over {case["kind"]} file: {what}')
 
     probe = (lambda: bio.getvalue()[:off] + b'|' + bio.getvalue()[off + sz:]) if case['kind'] == 'window' else None
-    c = fc.Contract(v, plain, fail, writable=True, probe_outside=probe, extends=(case['kind'] == 'plain'))
+    short = case['kind'] == 'window' and len(base) < off + sz
+    # the clause "the position advances by the number of bytes returned / written" is checked on every call, whatever the file below
+    v = cc.AdvanceCheck(v, lambda what, exp, obs: ctx.diff('oracle', f'{mode}-{case["kind"]}:advance', case, exp, obs,
+                                                          f'{mode} wrapper over {case["kind"]} file: {what}'))
+    if short:
+        # a window that reaches beyond the end of its base file has two ends (what is there / what is declared): the ordinary-file
+        # oracle does not apply; what is decided here is the position clause above, the content of every read against the decryption
+        # of what the base file holds at that moment, and the correspondence with the Coq model
+        ctx.stat('short_windows')
+        fail_full, fail = fail, (lambda *a: None)
+        v.check_reads = lambda pos, got: got == cc.stream_xor(key, case['ctr'], bio.getvalue()[off:off + sz], case['twl'])[pos:pos + len(got)]
+    c = fc.Contract(v, plain, fail, writable=True, probe_outside=probe if not short else None, extends=(case['kind'] == 'plain'))
     c.flags()
     res = []
     for op in case['ops']:
@@ -51,7 +62,7 @@ def run_case(ctx, mr, case):
     # the file must be the encryption of the logical plaintext, byte for byte
     under = bio.getvalue()[off:off + sz] if case['kind'] == 'window' else bio.getvalue()
     want = cc.stream_xor(key, case['ctr'], bytes(c.content), case['twl'])
-    if under != want:
+    if under != want and not short:
         fail('file-not-encryption-of-view', 'underlying bytes are not the encryption of the logical plaintext',
              want.hex(), under.hex())
     # correspondence with the extracted Coq model: same results, same final file bytes
